@@ -136,6 +136,54 @@ def make_leftover(framing, K, L):
     return leftover
 
 
+def make_history(framing, kind):
+    """two healthy transactions of the same kind on one client (and, for fc23, a third on a SECOND client in the same
+    process): each call returns exactly the values of the reply received during that call -- nothing decoded in an
+    earlier transaction shows up (decoder objects, default arguments and class attributes are process-wide state)"""
+    def history(u: int, v: bytes) -> bool:
+        import pymodbus.factory as F
+        assume(len(v) == 8)
+        assume(1 <= u <= 247)
+
+        def request(i):
+            if kind == "fc23":
+                return F.ReadWriteMultipleRegistersRequest(read_address=i, read_count=1, write_address=9, write_registers=[1])
+            if kind == "fc3":
+                return F.ReadHoldingRegistersRequest(i, 1)
+            return F.ReadCoilsRequest(i, 8)
+
+        def reply_pdu(i):
+            if kind == "fc23":
+                return bytes([23, 2, v[2 * i], v[2 * i + 1]])
+            if kind == "fc3":
+                return bytes([3, 2, v[2 * i], v[2 * i + 1]])
+            return bytes([1, 1, v[2 * i]])
+
+        def expect(i):
+            if kind == "fc1":
+                return [((v[2 * i] >> k) & 1) == 1 for k in range(8)]
+            return [v[2 * i] * 256 + v[2 * i + 1]]
+        clients = [make_client(framing, rx=b""), make_client(framing, rx=b"")]
+        for i, cl in ((0, clients[0]), (1, clients[0]), (2, clients[1])):
+            req = request(i)
+            req.unit_id = u
+            tid = (cl.transaction.tid + 1) % 65536
+            cl.rx = adu.ref_adu_clean(framing, reply_pdu(i), u, bytes([tid // 256, tid % 256]))     # (binary: no delimiter bytes, C03's finding)
+            try:
+                got = cl.execute(req)
+            except Exception as e:
+                explain("transaction %d raised %s", i, type(e).__name__)
+                return False
+            if is_error_object(got):
+                explain("transaction %d returned %r", i, got)
+                return False
+            vals = list(got.registers) if kind != "fc1" else list(got.bits)[:8]
+            if not same(vals, expect(i), "values returned by transaction %d" % i):
+                return False
+        return True
+    return history
+
+
 def make_late(framing):
     """transaction 1 receives nothing (time-out); its reply arrives late -- which can only reach the client if it kept
     the connection open; transaction 2 (same unit, same function code) must return ITS reply or an error object"""
@@ -247,6 +295,10 @@ def obligations(tier):
             out.append(Obl("leftover.%s.k%d" % (framing, K), make_leftover(framing, K, L), timeout=T,
                            contracts=("crc-exact",) if framing == "rtu" else contracts[framing], lemmas=lem[framing],
                            bounds="%s client whose framer still holds %d arbitrary bytes from an earlier transaction; then any %d reply bytes (function-code byte 3)" % (framing, K, L)))
+        for kind in (("fc23",) if tier == "quick" and framing != "tcp" else ("fc23", "fc3", "fc1")):
+            out.append(Obl("history.%s.%s" % (framing, kind), make_history(framing, kind), timeout=T,
+                           contracts=contracts[framing] + (("bits",) if kind == "fc1" else ()), lemmas=lem[framing],
+                           bounds="%s client: three healthy %s transactions in one process (two on one client, one on a second client), unit and reply values symbolic: each returns exactly its own reply's values" % (framing, kind)))
         out.append(Obl("late.%s" % framing, make_late(framing), timeout=T, contracts=contracts[framing], lemmas=lem[framing],
                        bounds="%s client: a request that times out, its reply arriving late (only if the connection was kept open), then a second request of the same kind; unit and values symbolic" % framing))
         out.append(Obl("stale.%s" % framing, make_stale(framing), timeout=T, contracts=contracts[framing], lemmas=lem[framing],
